@@ -38,7 +38,8 @@ Outs == {o \in AllOuts : o.out \in OutKinds /\ (o.k = "UNKNOWN" => "excU" \in Ou
 PMInit == [viol |-> {}, r |-> B!RInit,
            probe |-> 0,            \* call admitted as half-open probe whose result is outstanding
            disturbed |-> "-",      \* how the probe episode was disturbed, if it was
-           admitted |-> {}, refused |-> {}, recorded |-> {}]
+           admitted |-> {}, refused |-> {}, recorded |-> {},
+           outs |-> {}]            \* how the operation of each call ended: [i, out, k]
 
 V(m, cond, name) == IF cond THEN m ELSE [m EXCEPT !.viol = @ \cup {name}]
 
@@ -59,9 +60,18 @@ OnAllow(c, m, e) ==
                    !.refused = IF e.allowed THEN @ ELSE @ \cup {e.i},
                    !.probe = IF isProbe /\ m.probe = 0 THEN e.i ELSE @]
 
+\* C09 under concurrency: the record of a call is decided by the outcome of its own operation,
+\* whatever other calls (even ones that raised the very same exception object) did meanwhile
+Matches(x, e) ==
+    CASE x.out = "ok"  -> e.op = "ok"
+      [] x.out = "exc" -> e.op = "fail" /\ e.k = x.k
+      [] OTHER         -> e.op = "cancel"
+
 OnRec(c, m, e) ==
     LET m1 == BreakerOp(c, m, e.op, e.k, e.at, TRUE, e.ev, e.state)
-        m2 == V(m1, e.i \notin m.refused, "C07:rejected-call-recorded-with-breaker")
+        m0 == V(m1, \A x \in m.outs : x.i = e.i => Matches(x, e),
+                "C09:record-does-not-match-the-calls-own-outcome")
+        m2 == V(m0, e.i \notin m.refused, "C07:rejected-call-recorded-with-breaker")
         other == m.probe # 0 /\ e.i # m.probe
     IN  [m2 EXCEPT !.recorded = @ \cup {e.i},
                    !.probe = IF e.i = m.probe THEN 0 ELSE @,
@@ -71,8 +81,9 @@ OnRec(c, m, e) ==
                                  ELSE @]
 
 OnInvoke(c, m, e) ==
-    V(V(m, e.i \notin m.refused, "C07:operation-invoked-by-rejected-call"),
-      e.i \in m.admitted, "C07:operation-invoked-before-admission")
+    LET m1 == V(V(m, e.i \notin m.refused, "C07:operation-invoked-by-rejected-call"),
+                e.i \in m.admitted, "C07:operation-invoked-before-admission")
+    IN  [m1 EXCEPT !.outs = @ \cup {[i |-> e.i, out |-> e.out, k |-> e.k]}]
 
 PMonStep(c, m, e) ==
     CASE e.e = "callow"  -> OnAllow(c, m, e)
